@@ -4,16 +4,19 @@
 // Line protocol (objects live in numbered slots):
 //   new <id> <kind> <params>      cm:{i|d}:<seed> <num_hashes> <num_buckets> | fi:{i|s}:{u|d} <lg_max> <lg_start>
 //                                 vo:{i|s} <k> <rf> | vu:{i|s} <max_k> | eb:{i|s} <k>
+//   do <op> ; <op> ; ...          several ops on one line
 //   zerofill <0|1>                allocations made from now on are zero-filled (default: ASan's 0xBE fill)
 //   seed <n>                      (re)seed the installed random source (VarOpt / EBPPS draws)
 //   upd <id> <item> <weight>      item: decimal int64 or hex bytes ("-" empty) for string kinds / x<hex> for count-min strings
+//   upd2 <a> <b> <item> <weight> <seed> / merge2 <a> <b> <src> <seed>   the same op on two objects, reseeding before each
 //   merge <dst> <src>             family merge (vu: update(sketch src); src may be a vo object)
 //   result <vu id> <new id>       union get_result() -> new vo object
 //   fork <id> <new id> <b|s>      new := deserialize(serialize(id)) via bytes or stream
 //   eq <a> <b>                    EQ 1|0 (canonical API content)
 //   ser <id>                      IMG <kind> <hex> | <content> | <checks>      (all C09 checks done in C++ alone)
 //   load <kind> <hex>             IMG <kind> <hex> | <content> | <checks>      (deserialize a stored image: C10)
-//   c11 <id>                      C11 <kind> <hex> <npre> | b=<..> | s=<..> | cb=<..> | cs=<..>   (one char per case)
+//   c11 <id>                      C11 <kind> <hex> <npre> | b=<..> | s=<..> | cb=<..> | cs=<..> | xb=<..> | xs=<..>   (one char per case:
+//                                 prefixes bytes/stream, preamble byte x 8 replacements bytes/stream, preamble word attacks bytes/stream)
 //   c11x <kind> <hex>             same for a stored image
 // Case codes: T throw, A accept (content identical to the full image's), a accept with other content,
 //   S AddressSanitizer, U UBSan, O timeout, C allocation cap (one request > 256 MiB), L leak after throw, X other crash,
@@ -337,7 +340,7 @@ template<typename T> struct EB : Any {
     std::ostringstream os;
     os << "EB k=" << s.get_k() << " n=" << s.get_n() << " empty=" << (s.is_empty() ? 1 : 0) << " cw=" << vh::hex_f64(s.get_cumulative_weight()) << " c=" << vh::hex_f64(s.get_c());
     std::vector<T> full, withp;
-    { FixedDraw d(0.99999999999); auto r = s.get_result(); full.assign(r.begin(), r.end()); }   // partial item excluded
+    { FixedDraw d(std::nextafter(1.0, 0.0)); auto r = s.get_result(); full.assign(r.begin(), r.end()); }   // partial item excluded
     { FixedDraw d(0.0); auto r = s.get_result(); withp.assign(r.begin(), r.end()); }            // partial item included when c has a fraction
     os << " full=";
     for (size_t i = 0; i < full.size(); ++i) { if (i) os << ","; os << Item<T>::show(full[i]); }
@@ -417,15 +420,17 @@ static std::string c09_checks(const Any& o, const Bytes& img) {
     } catch (const std::exception&) { bad.push_back("header" + std::to_string(h) + "-throws"); }
   }
   std::unique_ptr<Any> rb, rs;
-  try { rb = o.from_bytes(img.data(), img.size()); if (rb->content() != want) bad.push_back("restore-bytes-content"); }
+  try { rb = o.from_bytes(img.data(), img.size()); }
   catch (const std::exception&) { bad.push_back("restore-bytes-throws"); }
+  auto crashed = [](const std::string& c) { return c.compare(0, 6, "CRASH:") == 0; };   // already recorded in g_notes
+  if (rb) { try { std::string c = rb->content(); if (c != want && !crashed(c)) bad.push_back("restore-bytes-content"); } catch (const std::exception&) { bad.push_back("restored-bytes-api-throws"); } }
   try {
     std::string withsent = st + std::string(8, '\xAB');
     std::istringstream is(withsent, std::ios::binary);
     rs = o.from_stream(is);
-    if (rs->content() != want) bad.push_back("restore-stream-content");
     if (!is.good() || (size_t)is.tellg() != st.size()) bad.push_back("stream-position");
   } catch (const std::exception&) { bad.push_back("restore-stream-throws"); }
+  if (rs) { try { std::string c = rs->content(); if (c != want && !crashed(c)) bad.push_back("restore-stream-content"); } catch (const std::exception&) { bad.push_back("restored-stream-api-throws"); } }
   for (int which = 0; which < 2; ++which) {
     Any* r = which == 0 ? rb.get() : rs.get();
     if (!r) continue;
@@ -548,45 +553,116 @@ static uint8_t replacement(uint8_t b, int j) {
     case 5: return b ^ 1; case 6: return b ^ 0x80; default: return (uint8_t)(b + 1); }
 }
 
+// word-level attacks on the count fields ("negative" / huge counts, and pairs of adjacent counts changed so that their sum is kept):
+// for every 4-byte word w at offset 4i < npre: 0xFFFFFFFF, 0x7FFFFFFF, 0x80000000, w-1, w+1, and with the next word (w+5, w'-5), (w-5, w'+5)
+static const int NWORD = 7;
+static bool word_attack(Bytes& m, size_t wi, int j) {
+  auto rd = [&](size_t o) { uint32_t v; memcpy(&v, &m[o], 4); return v; };
+  auto wr = [&](size_t o, uint32_t v) { memcpy(&m[o], &v, 4); };
+  size_t o = 4 * wi;
+  if (o + 4 > m.size()) return false;
+  uint32_t w = rd(o), nw = w;
+  if (j < 5) {
+    switch (j) { case 0: nw = 0xFFFFFFFFu; break; case 1: nw = 0x7FFFFFFFu; break; case 2: nw = 0x80000000u; break; case 3: nw = w - 1; break; default: nw = w + 1; }
+    if (nw == w) return false;
+    wr(o, nw); return true;
+  }
+  if (o + 8 > m.size()) return false;
+  uint32_t w2 = rd(o + 4);
+  if (j == 5) { wr(o, w + 5); wr(o + 4, w2 - 5); } else { wr(o, w - 5); wr(o + 4, w2 + 5); }
+  return true;
+}
+
 static std::string c11_line(const Any& proto, const Bytes& img) {
   const size_t n = img.size();
   const size_t npre = proto.npre(img);
+  const size_t nwords = (npre + 3) / 4;
   std::string ref;
   try { ref = proto.from_bytes(img.data(), n)->content(); } catch (const std::exception&) { ref = "<full image rejected>"; }
-  // prefixes; the stream path is run under two stack-fill patterns because several stream readers consume
-  // fields without checking the stream state (what they then see is whatever the stack held)
-  std::string pb = run_cases(n, [&](size_t i) { return one_case(proto, img.data(), i, false, false, ref, 0xFE); });
-  std::string ps1 = run_cases(n, [&](size_t i) { return one_case(proto, img.data(), i, true, false, ref, 0xFE); });
-  std::string ps2 = run_cases(n, [&](size_t i) { return one_case(proto, img.data(), i, true, false, ref, 0x01); });
-  std::string ps(n, 'T');
-  for (size_t i = 0; i < n; ++i) ps[i] = (ps1[i] != 'T') ? ps1[i] : ps2[i];
-  auto corrupt = [&](bool stream) {
-    return run_cases(npre * NREPL, [&](size_t c) {
-      size_t pos = c / NREPL; int j = (int)(c % NREPL);
+  // one session for all cases (a new child only after a crash):
+  //   [0,n) prefixes bytes | [n,2n) prefixes stream, stack fill 0xFE | [2n,3n) prefixes stream, stack fill 0x01
+  //   then npre*8 byte corruptions bytes, npre*8 stream, then nwords*7 word attacks bytes, nwords*7 stream.
+  // The stream path is run under two stack-fill patterns because several stream readers consume fields without
+  // checking the stream state (what they then see is whatever the stack held).
+  const size_t o1 = 3 * n, o2 = o1 + npre * NREPL, o3 = o2 + npre * NREPL, o4 = o3 + nwords * NWORD, total = o4 + nwords * NWORD;
+  std::string all = run_cases(total, [&](size_t c) -> char {
+    if (c < n) return one_case(proto, img.data(), c, false, false, ref, 0xFE);
+    if (c < 2 * n) return one_case(proto, img.data(), c - n, true, false, ref, 0xFE);
+    if (c < o1) return one_case(proto, img.data(), c - 2 * n, true, false, ref, 0x01);
+    if (c < o3) {
+      bool stream = c >= o2; size_t k = c - (stream ? o2 : o1);
+      size_t pos = k / NREPL; int j = (int)(k % NREPL);
       uint8_t v = replacement(img[pos], j);
       if (v == img[pos]) return '=';
       Bytes m(img); m[pos] = v;
       return one_case(proto, m.data(), m.size(), stream, true, ref, 0xFE);
-    });
-  };
-  std::string cb = corrupt(false), cs = corrupt(true);
-  return "C11 " + proto.kind() + " " + hexs(img) + " " + std::to_string(npre) + " | b=" + (pb.empty() ? "-" : pb) + " | s=" + (ps.empty() ? "-" : ps)
-         + " | cb=" + (cb.empty() ? "-" : cb) + " | cs=" + (cs.empty() ? "-" : cs);
+    }
+    bool stream = c >= o4; size_t k = c - (stream ? o4 : o3);
+    Bytes m(img);
+    if (!word_attack(m, k / NWORD, (int)(k % NWORD))) return '=';
+    return one_case(proto, m.data(), m.size(), stream, true, ref, 0xFE);
+  });
+  std::string pb = all.substr(0, n), ps1 = all.substr(n, n), ps2 = all.substr(2 * n, n), ps(n, 'T');
+  for (size_t i = 0; i < n; ++i) ps[i] = (ps1[i] != 'T') ? ps1[i] : ps2[i];
+  std::string cb = all.substr(o1, npre * NREPL), cs = all.substr(o2, npre * NREPL);
+  std::string xb = all.substr(o3, nwords * NWORD), xs = all.substr(o4, nwords * NWORD);
+  auto z = [](const std::string& x) { return x.empty() ? std::string("-") : x; };
+  return "C11 " + proto.kind() + " " + hexs(img) + " " + std::to_string(npre) + " | b=" + z(pb) + " | s=" + z(ps)
+         + " | cb=" + z(cb) + " | cs=" + z(cs) + " | xb=" + z(xb) + " | xs=" + z(xs);
 }
 
 // ---------------------------------------------------------------- main loop
-static std::map<int, std::unique_ptr<Any>> objs;
+struct NoObj {};
+struct ObjMap {
+  std::map<int, std::unique_ptr<Any>> m;
+  std::unique_ptr<Any>& at(int id) { auto it = m.find(id); if (it == m.end() || !it->second) throw NoObj(); return it->second; }
+  std::unique_ptr<Any>& operator[](int id) { return m[id]; }
+};
+static ObjMap objs;
 
+static std::string step1(const std::vector<std::string>& w);
+// a line that names a missing object (possible only in shrunk histories) is an error of the history, not an outcome
 static std::string step(const std::vector<std::string>& w) {
+  try { return step1(w); } catch (const NoObj&) { return "ERR no-object"; }
+}
+static std::string step1(const std::vector<std::string>& w) {
   const std::string& op = w[0];
   if (op == "new") {
     int id = atoi(w.at(1).c_str());
     objs[id] = make(w.at(2), std::vector<std::string>(w.begin() + 3, w.end()));
     return "ok";
   }
+  if (op == "do") {        // do <op> ; <op> ; ...   several set-up ops on one line (keeps C11 / C10 histories two lines long)
+    std::vector<std::string> cur;
+    for (size_t i = 1; i <= w.size(); ++i) {
+      if (i == w.size() || w[i] == ";") {
+        if (!cur.empty()) { try { step1(cur); } catch (const std::exception&) {} }
+        cur.clear();
+      } else cur.push_back(w[i]);
+    }
+    return "ok";
+  }
   if (op == "zerofill") { g_zero_fill = w.at(1) == "1"; return "ok"; }
   if (op == "seed") { reseed(strtoull(w.at(1).c_str(), nullptr, 10)); return "ok"; }
   if (op == "upd") { objs.at(atoi(w.at(1).c_str()))->upd(w.at(2), w.at(3)); return "ok"; }
+  if (op == "upd2") {     // same update on original and restored object under the same draws
+    uint64_t sd = strtoull(w.at(5).c_str(), nullptr, 10);
+    Any& a = *objs.at(atoi(w.at(1).c_str())); Any& b = *objs.at(atoi(w.at(2).c_str()));
+    bool ta = false, tb = false;
+    reseed(sd); try { a.upd(w.at(3), w.at(4)); } catch (const std::exception&) { ta = true; }
+    reseed(sd); try { b.upd(w.at(3), w.at(4)); } catch (const std::exception&) { tb = true; }
+    if (ta != tb) return ta ? "ASYM original-throws" : "ASYM restored-throws";
+    return ta ? "throw" : "ok";
+  }
+  if (op == "merge2") {   // same merge into original and restored object under the same draws
+    uint64_t sd = strtoull(w.at(4).c_str(), nullptr, 10);
+    Any& a = *objs.at(atoi(w.at(1).c_str())); Any& b = *objs.at(atoi(w.at(2).c_str())); Any& src = *objs.at(atoi(w.at(3).c_str()));
+    bool ta = false, tb = false;
+    reseed(sd); try { a.merge(src); } catch (const std::exception&) { ta = true; }
+    reseed(sd); try { b.merge(src); } catch (const std::exception&) { tb = true; }
+    if (ta != tb) return ta ? "ASYM original-throws" : "ASYM restored-throws";
+    return ta ? "throw" : "ok";
+  }
   if (op == "merge") { objs.at(atoi(w.at(1).c_str()))->merge(*objs.at(atoi(w.at(2).c_str()))); return "ok"; }
   if (op == "result") { auto r = objs.at(atoi(w.at(1).c_str()))->result(); objs[atoi(w.at(2).c_str())] = std::move(r); return "ok"; }
   if (op == "fork") {
@@ -598,8 +674,9 @@ static std::string step(const std::vector<std::string>& w) {
     return "ok";
   }
   if (op == "eq") {
-    std::string a = objs.at(atoi(w.at(1).c_str()))->content();
-    std::string b = objs.at(atoi(w.at(2).c_str()))->content();
+    Any& oa = *objs.at(atoi(w.at(1).c_str())); Any& ob = *objs.at(atoi(w.at(2).c_str()));
+    std::string a, b;
+    try { a = oa.content(); b = ob.content(); } catch (const std::exception&) { return "EQ X api-throws"; }
     if (a.compare(0, 6, "CRASH:") == 0 || b.compare(0, 6, "CRASH:") == 0) { std::string n = g_notes; g_notes.clear(); return "EQ X " + n; }
     return a == b ? "EQ 1" : "EQ 0 | " + a + " | " + b;
   }
@@ -609,11 +686,13 @@ static std::string step(const std::vector<std::string>& w) {
     // the whole battery runs in a child: a sanitizer abort inside a writer/reader under VALID use is reported, not fatal
     std::string line = guarded("ser", [&]() {
       Bytes img = o.ser(0);
-      std::string content = o.content();
+      std::string content;
+      try { content = o.content(); } catch (const std::exception&) { return std::string("APITHROW"); }
       std::string checks = c09_checks(o, img);
       return "IMG " + o.kind() + " " + hexs(img) + " | " + content + " | " + checks;
     });
     if (line.compare(0, 6, "CRASH:") == 0) { g_notes.clear(); return "SERCRASH " + o.kind() + " " + line.substr(6); }
+    if (line == "APITHROW") return "SERCRASH " + o.kind() + " api-throws";      // a public getter of a valid object throws
     return line;
   }
   if (op == "load") {
@@ -621,13 +700,26 @@ static std::string step(const std::vector<std::string>& w) {
     Bytes img = vh::bytes_of_hex(w.at(2));
     std::vector<std::string> bad;
     std::string cb = "<throw>", cs = "<throw>";
-    try { cb = proto->from_bytes(img.data(), img.size())->content(); } catch (const std::exception&) { bad.push_back("bytes-throws"); }
-    try { std::string s(img.begin(), img.end()); std::istringstream is(s, std::ios::binary); cs = proto->from_stream(is)->content(); }
+    std::unique_ptr<Any> ob, os_;
+    try { ob = proto->from_bytes(img.data(), img.size()); } catch (const std::exception&) { bad.push_back("bytes-throws"); }
+    try { std::string s(img.begin(), img.end()); std::istringstream is(s, std::ios::binary); os_ = proto->from_stream(is); }
     catch (const std::exception&) { bad.push_back("stream-throws"); }
+    if (ob) { try { cb = ob->content(); } catch (const std::exception&) { bad.push_back("restored-bytes-api-throws"); } }
+    if (os_) { try { cs = os_->content(); } catch (const std::exception&) { bad.push_back("restored-stream-api-throws"); } }
     if (cb != cs) bad.push_back("bytes-ne-stream");
     std::string chk = "ok";
     if (!bad.empty()) { chk = "FAIL:"; for (size_t i = 0; i < bad.size(); ++i) { if (i) chk += ","; chk += bad[i]; } }
     return "IMG " + w.at(1) + " " + hexs(img) + " | " + cb + " | " + chk;
+  }
+  if (op == "probe") {     // probe <kind> <hex> <b|s>: deserialize + getters/updates in THIS process (debugging aid, not used by the checks)
+    auto proto = make(w.at(1), {});
+    Bytes img = vh::bytes_of_hex(w.at(2));
+    std::unique_ptr<Any> o;
+    if (w.at(3) == "b") { uint8_t* buf = (uint8_t*)malloc(img.size()); memcpy(buf, img.data(), img.size()); o = proto->from_bytes(buf, img.size()); free(buf); }
+    else { std::string sdat(img.begin(), img.end()); std::istringstream is(sdat, std::ios::binary); poison_stack(0xFE); o = proto->from_stream(is); }
+    std::string c = o->content();
+    o->exercise();
+    return "accepted " + c;
   }
   if (op == "c11") { Any& o = *objs.at(atoi(w.at(1).c_str())); return c11_line(o, o.ser(0)); }
   if (op == "c11x") { auto proto = make(w.at(1), {}); return c11_line(*proto, vh::bytes_of_hex(w.at(2))); }
